@@ -133,7 +133,10 @@ def GenerateRxnNet(initial_reactant, reaction_rules):
                             products[j].GetNumAtoms() and \
                             products[i].GetNumAtoms() ==\
                                 len(products[i].
-                                    GetSubstructMatch(products[j])):
+                                    GetSubstructMatch(products[j])) and \
+                            products[i].GetNumAtoms() ==\
+                                len(products[j].
+                                    GetSubstructMatch(products[i])):
 
                             del products[i]
                             break
@@ -146,7 +149,9 @@ def GenerateRxnNet(initial_reactant, reaction_rules):
                         # look for substructure match
                         if mol1.GetNumAtoms() == mol2.GetNumAtoms() and \
                             mol1.GetNumAtoms() == len(mol1.GetSubstructMatch
-                                                      (mol2)):
+                                                      (mol2)) and \
+                            mol1.GetNumAtoms() == len(mol2.GetSubstructMatch
+                                                      (mol1)):
                             # if it's in processed list, break
                             inthelist = 1
                             break
